@@ -54,6 +54,10 @@ struct WalletNode {
     void Commit(const CTransactionRef& tx);            // CWallet::CommitTransaction (adds to the wallet; no broadcast)
 };
 
+// scriptPubKeys of the wallet's active internal (change) descriptors, indexes 0..count-1, with their output type.
+// Obtained by parsing the descriptors' public strings and expanding them (descriptor code only, no wallet logic).
+std::map<CScript, OutputType> InternalScripts(wallet::CWallet& w, int count);
+
 // topologically ordered mempool content (parents first, ties by txid)
 std::vector<CTransactionRef> MempoolTxs(ck::Node& n);
 
@@ -137,6 +141,20 @@ struct World {
     std::vector<Ext> ExternalCoins();
     // external payment: spends the OP_TRUE coin `from` into `value` for spk (+ the rest minus fee back to OP_TRUE)
     static CTransactionRef Pay(const Ext& from, const std::vector<std::pair<CScript, CAmount>>& outs, CAmount fee = 2000, uint32_t sequence = 0xfffffffd);
+
+    // ---- the eight prepared coin kinds of C41 / C56
+    enum Kind { K_P2WPKH = 0, K_P2PKH, K_P2TR, K_P2SH_P2WPKH, K_IMMATURE_CB, K_LOCKED, K_UNCONF_SELF, K_UNCONF_EXT, K_COUNT };
+    static const char* KindName(int k);
+    struct Prepared {
+        std::map<int, COutPoint> op;            // kind -> the wallet coin of that kind
+        std::map<COutPoint, CTxOut> prevouts;   // every output of every wallet-relevant tx + the external coin
+        COutPoint ext_op;                       // a confirmed P2WPKH coin of ext_key (not the wallet's)
+        CTxOut ext_out;
+        CKey ext_key;
+    };
+    // Gives the wallet exactly the coins in `mask` (bit k = kind k): one block with the confirmed payments (+ the external
+    // coin), optionally one block whose coinbase pays the wallet, then the mempool transactions; locks the K_LOCKED coin.
+    Prepared PrepareCoins(unsigned mask);
 
     // does the transaction touch the wallet (pays one of its scripts or spends an output of a known tx paying one)?
     bool Relevant(const CTransaction& tx) const;
